@@ -36,6 +36,7 @@ TConstruct(ev) ==
   /\ memo' = EmptyMemo
   /\ Clause(ev, "construct-unique-ids", UniqueIds(ev.verts))
   /\ Clause(ev, "construct-verdict", Accepts(ev.verts, ev.edges) = ~ev.raised)
+  /\ Clause(ev, "construct-gradient-index", ev.raised \/ \A j \in DOMAIN ev.verts : ev.gidx[j] = GradientIndex(ev.verts, j))
   /\ Clause(ev, "construct-binding", ev.raised \/ \A n \in DOMAIN ev.edges : ev.bound[n] = Bind2(ev.edges[n], ev.verts))
 
 TQuery(ev) ==
@@ -55,6 +56,7 @@ TOptCall(ev) ==
   /\ Clause(ev, "opt-raised", ~ev.raised)
   /\ Clause(ev, "opt-effect", OptCallEffect(ev.maxIter, ev.fixFirst, [i \in DOMAIN ev.verts |-> ev.verts[i].pose]))
   /\ Clause(ev, "opt-report", RepMatches(Outcome(Favourable(ev.cls, ev.rep, ev.maxIter), 0, ev.maxIter), ev.rep))
+  /\ Clause(ev, "opt-str", ev.raised \/ (ev.rep.strHeaderOk /\ ev.rep.strRows = Outcome(Favourable(ev.cls, ev.rep, ev.maxIter), 0, ev.maxIter).numIter))
   /\ Clause(ev, "opt-verbose", ev.rep.verboseOk)
   /\ Clause(ev, "opt-split", ev.rep.splitOk)
 
